@@ -886,6 +886,11 @@ def sort_floats(m, ref, args, t, sp):
         for (c, p), v in zip(els, vals):
             m.write_loc(c, p, v, sp)
         return UNIT
+    return _sorted_model(m, els, src, sp)
+
+
+def _sorted_model(m, els, src, sp):
+    n = len(src)
     m.sorted_sets = getattr(m, "sorted_sets", {})
     tag = None
     for t0, s0 in m.sorted_sets.items():
@@ -1599,3 +1604,203 @@ def convert_from(m, ref, args, t, sp):
 INT_NAMES = ("u8", "u16", "u32", "u64", "u128", "usize", "i8", "i16", "i32", "i64", "i128", "isize")
 BY_TRAIT[("core::convert::From", "from")] = convert_from
 BY_TRAIT[("core::convert::Into", "into")] = convert_from
+
+
+def to_int(dst):
+    """ToPrimitive::to_u64 & co.  From an integer: Some(v) when in range.  From a float: the count-like
+    value has been routed through f64 (exact only below 2^53) — returned as a marked unknown integer,
+    never equal to an integer expression"""
+    def h(m, ref, args, t, sp):
+        v = load(m, args[0])
+        if is_int(v):
+            lo, hi = INT_RANGE[dst]
+            v = simp(v)
+            c = ("ovf", Lin.lift(v), lo, hi) if not isinstance(v, int) else (not (lo <= v <= hi))
+            if m.truth(c, sp, "to_" + dst):
+                return none()
+            return some(v)
+        if is_float(v):
+            if F.is_lit(v):
+                x = F.litval(v)
+                lo, hi = INT_RANGE[dst]
+                if x == x and lo <= x <= hi:
+                    return some(int(x))
+                return none()
+            return some(VOpaque("int", m.new_name("f2i(%s)" % F.show(v)[:60])))
+        return some(VOpaque("int", m.new_name("to_" + dst)))
+    return h
+
+
+for _d in ("u64", "usize", "i64", "u32", "i32", "u128", "i128", "isize", "u16", "u8"):
+    BY_TRAIT[("num_traits::cast::ToPrimitive", "to_" + _d)] = to_int(_d)
+
+
+def slice_get(mutable):
+    idx_h = index_call(mutable)
+
+    def h(m, ref, args, t, sp):
+        try:
+            return some(idx_h(m, ref, args, t, sp))
+        except PathEnd as e:
+            if e.info.get("kind") in ("index-oob", "slice-oob"):
+                return none()
+            raise
+    return h
+
+
+BY_NAME["core::slice::<impl [T]>::get"] = slice_get(False)
+BY_NAME["core::slice::<impl [T]>::get_mut"] = slice_get(True)
+
+
+def option_map_or(m, ref, args, t, sp):
+    v = args[0]
+    if isinstance(v, VStruct) and v.path == OPTION:
+        return m.call_closure(args[2], [v.fields[0]], sp) if v.variant == 1 else args[1]
+    raise Unsupported("map_or of unmodelled option")
+
+
+def option_and_then(m, ref, args, t, sp):
+    v = args[0]
+    if isinstance(v, VStruct) and v.path == OPTION:
+        return m.call_closure(args[1], [v.fields[0]], sp) if v.variant == 1 else none()
+    raise Unsupported("and_then of unmodelled option")
+
+
+def option_unwrap_or_else(m, ref, args, t, sp):
+    v = args[0]
+    if isinstance(v, VStruct) and v.path == OPTION:
+        return v.fields[0] if v.variant == 1 else m.call_closure(args[1], [], sp)
+    raise Unsupported("unwrap_or_else of unmodelled option")
+
+
+def option_filter(m, ref, args, t, sp):
+    v = args[0]
+    if isinstance(v, VStruct) and v.path == OPTION:
+        if v.variant == 0:
+            return v
+        c = Cell(v.fields[0])
+        r = m.call_closure(args[1], [VRef(c, (), False)], sp)
+        if is_cond(r):
+            return v if m.truth(r, sp, "filter") else none()
+    raise Unsupported("filter of unmodelled option")
+
+
+for _k, _h in (("core::option::Option::<T>::map_or", option_map_or), ("core::option::Option::<T>::and_then", option_and_then),
+               ("core::option::Option::<T>::unwrap_or_else", option_unwrap_or_else), ("core::option::Option::<T>::filter", option_filter)):
+    BY_NAME.setdefault(_k, _h)
+
+
+def _probe_order(m, fn2, sp):
+    """classify a comparator on two non-NaN probes: returns 'asc' when it is the numeric order"""
+    res = []
+    # numerically equal arguments may compare either way (total orders separate -0.0 from +0.0):
+    # the sorted slice is the same up to the order of equal elements
+    for rel in ("Lt", "Gt"):
+        a, b = F.atom(m.new_name("probe_a")), F.atom(m.new_name("probe_b"))
+        saved = m.order
+        m.order = saved.clone()
+        try:
+            m.order.set_nan(a, False)
+            m.order.set_nan(b, False)
+            m.order.assume(rel, a, b, True)
+            n_tr = len(m.trace)
+            r = fn2(a, b)
+            if len(m.trace) != n_tr:
+                return None   # the comparator's answer is not determined by the order of its arguments
+        except (PathEnd, Infeasible):
+            return None
+        finally:
+            m.order = saved
+        k = _ord_k(m, r)
+        if k is None:
+            return None
+        res.append(k)
+    if res == [-1, 1]:
+        return "asc"
+    if res == [1, -1]:
+        return "desc"
+    return None
+
+
+def _maybe_nan(m, src):
+    return not m.cfg.finite and any(m.order.nan_status(x) is not False for x in src if is_float(x))
+
+
+def slice_sort_by(m, ref, args, t, sp):
+    els, _ = slice_elems(m, args[0])
+    src = [m.read_loc(c, p) for c, p in els]
+    if len(src) <= 1:
+        return UNIT
+    if not all(is_float(x) for x in src):
+        raise Unsupported("sort_by on a non-float slice")
+    if _maybe_nan(m, src):
+        raise Unsupported("sort_by with elements that may be NaN")
+    clo = args[1]
+
+    def cmp2(a, b):
+        ca, cb = Cell(a), Cell(b)
+        return m.call_closure(clo, [VRef(ca, (), False), VRef(cb, (), False)], sp)
+    kind = _probe_order(m, cmp2, sp)
+    if kind != "asc":
+        raise Unsupported("sort_by with a comparator that is not recognised as the ascending numeric order")
+    if all(F.is_lit(x) for x in src):
+        vals = sorted(src, key=lambda x: F.litval(x))
+        for (c, p), v in zip(els, vals):
+            m.write_loc(c, p, v, sp)
+        return UNIT
+    return _sorted_model(m, els, src, sp)
+
+
+def slice_sort_by_key(m, ref, args, t, sp):
+    els, _ = slice_elems(m, args[0])
+    src = [m.read_loc(c, p) for c, p in els]
+    if len(src) <= 1:
+        return UNIT
+    if not all(is_float(x) for x in src):
+        raise Unsupported("sort_by_key on a non-float slice")
+    clo = args[1]
+    a = F.atom(m.new_name("probe_k"))
+    m.order.set_nan(a, False)
+    ca = Cell(a)
+    k = m.call_closure(clo, [VRef(ca, (), False)], sp)
+    k = load(m, k)
+    is_id = (k == a) or (isinstance(k, VStruct) and k.path.endswith("FloatOrd") and k.fields and k.fields[0] == a)
+    if not is_id:
+        raise Unsupported("sort_by_key with a key that is not the value itself (or its FloatOrd wrapper)")
+    if _maybe_nan(m, src) and not isinstance(k, VStruct):
+        raise Unsupported("sort_by_key with elements that may be NaN")
+    if all(F.is_lit(x) for x in src):
+        vals = sorted(src, key=lambda x: F.litval(x))
+        for (c, p), v in zip(els, vals):
+            m.write_loc(c, p, v, sp)
+        return UNIT
+    return _sorted_model(m, els, src, sp)
+
+
+for _p in ("core::slice::<impl [T]>::", "alloc::slice::<impl [T]>::", "std::slice::<impl [T]>::"):
+    for _n in ("sort_by", "sort_unstable_by"):
+        BY_NAME[_p + _n] = slice_sort_by
+    for _n in ("sort_by_key", "sort_unstable_by_key", "sort_by_cached_key"):
+        BY_NAME[_p + _n] = slice_sort_by_key
+
+
+def slice_partition_point(m, ref, args, t, sp):
+    """[T]::partition_point(pred): index of the first element for which pred is false, *provided*
+    the slice is partitioned (all true before all false); otherwise the result is unspecified"""
+    els, _ = slice_elems(m, args[0])
+    flags = []
+    for c, p in els:
+        r = m.call_closure(args[1], [VRef(c, p, False)], sp)
+        if not is_cond(r):
+            raise Unsupported("partition_point predicate")
+        flags.append(bool(m.truth(r, sp, "partition_point")))
+    k = 0
+    while k < len(flags) and flags[k]:
+        k += 1
+    if any(flags[k:]):
+        raise Unsupported("partition_point on a slice that is not partitioned by the predicate (result unspecified)")
+    return k
+
+
+for _p in ("core::slice::<impl [T]>::",):
+    BY_NAME[_p + "partition_point"] = slice_partition_point
